@@ -57,6 +57,13 @@ def gen_cases(ctx):
         elif i % 6 == 3:
             # the dispatcher was used for a warm start by a rule solver before the search
             c["warm_start"] = True
+        elif i % 6 == 4:
+            # a search that also proposes machines the operation cannot run on (the refusal is
+            # caught and the search goes on with the same dispatcher)
+            c["clumsy"] = True
+        elif i % 6 == 5 and cls != "fractional":
+            # a search that draws the first complete schedules it finds before reading them
+            c["draw_leaves"] = True
         yield c
     # dense flexible instances (most operations have alternative machines): many histories reach
     # the same job progress with different clocks
@@ -128,8 +135,10 @@ def walk_by_copy(ctx, inst, filter_spec, stats):
     return rec(run.d)
 
 
-def walk(ctx, inst, filter_spec, stats, heuristic_order=False, warm_start=False):
+def walk(ctx, inst, filter_spec, stats, heuristic_order=False, warm_start=False, clumsy=False,
+         draw_leaves=False):
     run = Run(inst, filter_spec)
+    n_machines = 1 + max(m for job in inst["machines"] for ms in job for m in ms)
     d, r = run.d, run.r
     rule = None
     if heuristic_order:
@@ -152,6 +161,12 @@ def walk(ctx, inst, filter_spec, stats, heuristic_order=False, warm_start=False)
             d.reset()
             for o, m in path:
                 d.dispatch(run.op(o), m)
+            if draw_leaves and stats["leaves"] <= 2:
+                import matplotlib.pyplot as plt
+                from job_shop_lib.visualization import plot_gantt_chart
+                plot_gantt_chart(d.schedule)
+                plt.close("all")
+                stats["drawn"] = stats.get("drawn", 0) + 1
             real = d.schedule.makespan()
             if real != max(r.machine_end) or not d.schedule.is_complete():
                 stats["leaf_mismatch"] = {"history": list(path), "real_makespan": real,
@@ -168,6 +183,17 @@ def walk(ctx, inst, filter_spec, stats, heuristic_order=False, warm_start=False)
             d.dispatch(run.op(o), m)
         if rule is not None:
             rule(d)       # the search looks at the rule's favourite first
+        if clumsy:
+            for op in d.raw_ready_operations():
+                wrong = [m for m in range(n_machines) if m not in op.machines]
+                if wrong:
+                    try:
+                        d.dispatch(op, wrong[len(path) % len(wrong)])
+                    except Exception:
+                        stats["refused"] = stats.get("refused", 0) + 1
+                    else:
+                        stats["leaf_mismatch"] = {"history": list(path), "accepted_wrong_machine": True}
+                    break
         avail = [o.operation_id for o in d.available_operations()]
         ready = r.ready()
         if len(avail) < len(ready):
@@ -206,7 +232,10 @@ def run_case(ctx, case):
             ctx.count("trees_walked_by_copying_the_dispatcher")
         else:
             best = walk(ctx, inst, spec, stats, heuristic_order=bool(case.get("heuristic_order")),
-                        warm_start=bool(case.get("warm_start")))
+                        warm_start=bool(case.get("warm_start")), clumsy=bool(case.get("clumsy")),
+                        draw_leaves=bool(case.get("draw_leaves")))
+            ctx.count("refused_proposals_during_the_search", stats.get("refused", 0))
+            ctx.count("complete_schedules_drawn_before_being_read", stats.get("drawn", 0))
             if case.get("heuristic_order"):
                 ctx.count("trees_walked_in_rule_order")
             if case.get("warm_start"):
